@@ -261,6 +261,10 @@ func (x *g) genUserTypes() {
 	switch x.o.Profile {
 	case "views":
 		nres = x.r.Range(1, 2)
+	case "stream":
+		if x.chance(1, 2) {
+			nres = 1
+		}
 	default:
 		if x.chance(1, 3) {
 			nres = 1
